@@ -833,6 +833,96 @@ pub fn build_relay_reg(name: &'static str) -> Scenario<Arc<RelayReg>> {
     }
 }
 
+// ---------------------------------------------------------------------------------------------
+// C01, third removal route: dropping the object that owns the actions (Signals + its handles).
+
+pub struct Owner {
+    inst: Mutex<Option<signal_hook::iterator::Signals>>,
+    handle: Mutex<Option<signal_hook::iterator::Handle>>,
+}
+
+pub fn build_owner_drop(name: &'static str) -> Scenario<Arc<Owner>> {
+    let setup = || {
+        fresh_registry(&[(S1, Disp::Ignore), (S2, Disp::Ignore)]);
+        let s = signal_hook::iterator::Signals::new(&[S1, S2]).expect("new");
+        let h = s.handle();
+        Arc::new(Owner { inst: Mutex::new(Some(s)), handle: Mutex::new(Some(h)) })
+    };
+    let m = ThreadSpec {
+        name: "M",
+        body: Box::new(|s: &Arc<Owner>| {
+            let i = s.inst.lock().unwrap().take();
+            let h = s.handle.lock().unwrap().take();
+            sched::log("drop_call", 0, 0);
+            drop(i);
+            drop(h); // the last owner: unregisters both actions
+            sched::log("drop_ret", 0, 0);
+        }),
+        nest_signals: vec![S1],
+        max_nest: 1,
+    };
+    let d = |name: &'static str, sigs: Vec<i32>| ThreadSpec {
+        name,
+        body: Box::new(move |_s: &Arc<Owner>| {
+            for &sg in &sigs {
+                sched::raise(sg);
+            }
+        }),
+        nest_signals: vec![],
+        max_nest: 0,
+    };
+    Scenario {
+        name: name.to_string(),
+        opts: Opts { stale_reads: true, stale_depth: 3, max_spurious: 0, horizon: 20_000, log_ops: false, log_handler_ops: false, reduce: false, no_discipline: false },
+        signals: vec![S1, S2],
+        setup: Box::new(setup),
+        threads: vec![m, d("D1", vec![S1, S2]), d("D2", vec![S2])],
+        finish: Box::new(|_s, e| {
+            if !e.panics.is_empty() {
+                return Err(format!("C18: panicked: {:?}", e.panics));
+            }
+            // the actions' only visible effect is the wake attempt on the instance's pipe
+            let mut fd: Option<u64> = None;
+            let mut open_wakes: i32 = 0;
+            let mut dropped = false;
+            let mut h: u64 = 0xcbf29ce484222325;
+            let mut depth_wakes = 0u64;
+            for ev in &e.log {
+                match ev.tag {
+                    "wake" => {
+                        if fd.is_none() {
+                            fd = Some(ev.a);
+                        }
+                        if dropped {
+                            return Err("C01: an action of the dropped instance still ran (wake attempt on its pipe) after the drop of its last owner had returned".into());
+                        }
+                        depth_wakes += 1;
+                        h ^= depth_wakes.wrapping_mul(0x9e3779b97f4a7c15) ^ ev.tid as u64;
+                        open_wakes += 0;
+                    }
+                    "drop_ret" => dropped = true,
+                    _ => {}
+                }
+            }
+            if let Some(f) = fd {
+                if unsafe { libc::fcntl(f as i32, libc::F_GETFD) } != -1 {
+                    return Err("C01: the pipe captured by the removed actions is still open after the last owner was dropped (captured state not released)".into());
+                }
+            }
+            // a probe delivery afterwards must not reach any action of the instance
+            let before = e.log.iter().filter(|x| x.tag == "wake").count();
+            sched::setup_raise(S1);
+            sched::setup_raise(S2);
+            let after = sched::exec().log.iter().filter(|x| x.tag == "wake").count();
+            if after != before {
+                return Err("C01: an action of the dropped instance ran in a later delivery".into());
+            }
+            Ok(h)
+        }),
+        monitor: Some(Box::new(|| Box::new(SnapMon::default()) as Box<dyn Monitor>)),
+    }
+}
+
 fn rp(name: &'static str, prop: &'static str) -> RP {
     RP {
         name,
@@ -875,6 +965,7 @@ pub fn scenarios(prop: &str, tier: Tier) -> Vec<Item> {
             p.nest = vec![S1];
             p.pause_in_action = true;
             v.push(item(build_reg(p), b(2, 3), "unregister_signal vs deliveries (two in a row) + nested arrival"));
+            v.push(item(build_owner_drop("owner_drop_vs_deliveries"), b(2, 3), "dropping a Signals instance and its last handle (removal by dropping the owner) vs deliveries of both signals from two threads + nested arrival in the dropping thread"));
             let mut p = rp("reg_two_mutators", "C01");
             p.pre = vec![Reg(S1, 1), Reg(S2, 5)];
             p.mutators = vec![vec![Unreg(1)], vec![Unreg(5), Reg(S2, 6)]];
